@@ -12,7 +12,14 @@ RULE = ("breadth-first search over ALL operation histories up to the length boun
         "clock would, at 1 and at ttl-1). PAIR configurations: ONE decorator object (the result of alru_cache(maxsize[, key_fn]) "
         "with default key and normalising key_fn / acached_per_instance() / alazy_constant(ttl)) is applied to TWO functions or "
         "methods (f,g / m,k / z,y) whose calls (reduced spelling menu x(a), x(a, b=1), x(a=a)) are interleaved in the histories, "
-        "the reference keeping one independent cache per decorated function. One operation = one call through fn(...) or fn.asynq(...).value() with "
+        "the reference keeping one independent cache per decorated function. OVERLAPPING calls are operations too: "
+        "'together[X | Y]' = one @asynq driver task yields [fn.asynq(X), fn.asynq(Y)] with the blocking body kind, so both calls "
+        "are in flight across the same batch flush (same key same/other spelling, different keys, with a raising twin, the two "
+        "instances, the two functions of a pair; for alazy_constant z|z and z|y) on fresh and warm caches; and 'X, whose body "
+        "synchronously calls Y' (re-entrant body, both body kinds, another key / the other function of a pair). Reference for "
+        "overlapping calls: both look up before either stores; two misses of one key may run the body once or twice; every value "
+        "computed is stored (LRU: any order of the two look-ups and the two stores, the reference adopts the permitted order the "
+        "real cache shows) and later calls must hit it. One operation = one call through fn(...) or fn.asynq(...).value() with "
         "a in {1,2}, b in {omitted, =default, other}, keyword-only c in {omitted, other} in every positional/keyword/mixed "
         "spelling (32 spellings of f, 16 of m, 12 of n), body returning at once or blocking on a harness batch item first "
         "(configuration), designated arguments (a=2 with b=1 resp. c=1) make the body raise. Every history is executed on fresh real "
@@ -29,15 +36,22 @@ ASSUMPTIONS = [
     "alru/per-instance bodies return a value determined by their arguments (no run serial), so a stale hit is told from a "
     "recomputation by the body-run log, not by the value; alazy_constant values carry the run serial",
     "on a method the instance is one of the parameters (two instances never share an entry)",
+    "overlapping calls: the statement promises no single-flight, so one or two body runs are accepted for two overlapping misses "
+    "of one key, and the recency order / which of two equal-key values is kept is left open (resolved by observing the real "
+    "cache, or by the next hit for alazy_constant); everything after that is judged against the adopted reference state",
+    "at most two calls overlap, issued from one driver task; the shared-decorator per-instance configuration uses the "
+    "synchronous calling form only",
 ]
 TECHNIQUE = "explicit-state BFS over operation histories on the real objects vs reference state machine"
 
 DEPTH = {"quick": {"alru": 4, "acpi": 4, "alazy": 8, "alru-pair": 4, "acpi-pair": 4, "alazy-pair": 6},
-         "thorough": {"alru": 6, "acpi": 6, "alazy": 10, "alru-pair": 6, "acpi-pair": 5, "alazy-pair": 10}}
+         "thorough": {"alru": 6, "acpi": 6, "acpi-abc": 5, "alazy": 10, "alru-pair": 6, "acpi-pair": 5, "alazy-pair": 9}}
 CLOCK_STARTS = {0: (None, 1), 5: (None, 1, 4)}  # None = the large default start (1000000); small: 1 and ttl-1
 
 
 def depth_key(c):
+    if c["fam"] == "acpi" and c.get("sig") == "abc":
+        return "acpi-abc"
     return c["fam"] + ("-pair" if c.get("pair") else "")
 
 
@@ -117,4 +131,8 @@ def finish(acc, tier):
                        "alazy": "ttl {0,5} x body {imm, block} x clock start {1000000, 1, ttl-1}, clock steps {0,4,6}",
                        "pairs (one decorator object on two functions)": "alru maxsize 1-3 x key {default, norm key_fn} x {f+g, "
                        "methods m+k of one instance} x body; acpi methods m+k x 2 instances x body; alazy z+y x ttl {0,5} x body",
-                       "calling forms": ["fn(...)", "fn.asynq(...).value()"]}}
+                       "overlapping / re-entrant operations": "together[X | Y] over the menu x(1), x(2), x(1,b=1), x(a=1), x(2,b=1)(raises): "
+                       "pairs (x1,x1) (x1,x(a=1)) (x1,x2) (x1,x(1,b=1)) (x1,raising) per function and instance + 2 cross-instance pairs "
+                       "(blocking body configurations); re-entry x1->x2, x1->x(1,b=1) per function and instance (all configurations); "
+                       "pair configurations: f1|g1, f1|g2, f1|f2, f1->g1, g1->f2; alazy: z|z (and z|y, y|y in pair configurations)",
+                       "calling forms": ["fn(...)", "fn.asynq(...).value()", "yield [fn.asynq(X), fn.asynq(Y)] from a driver task"]}}
